@@ -14,7 +14,7 @@ pub(crate) struct Consumer {
     sent: FnvHashSet<IpAddr>,
 }
 
-pub(crate) type Row = (IpAddr, packet::PathNlri, Arc<Vec<packet::Attribute>>);
+pub(crate) type Row = (IpAddr, Family, packet::PathNlri, Arc<Vec<packet::Attribute>>, Option<bgp::Nexthop>);
 
 impl Consumer {
     pub(crate) fn new() -> Self {
@@ -32,6 +32,11 @@ impl Consumer {
     pub(crate) fn snap_post(&mut self, c: AdjRibInChange) {
         apply_snapshot(&mut self.post, c)
     }
+    /// bmp::serve, snapshot phase, PeerDown arm (transcribed): the peer's buffered routes are dropped
+    pub(crate) fn drop_peer(&mut self, a: IpAddr) {
+        self.pre.remove(&a);
+        self.post.remove(&a);
+    }
     /// send_peer_up's bookkeeping
     pub(crate) fn peer_up(&mut self, a: IpAddr) {
         track_peer_up(&mut self.sent, a)
@@ -43,9 +48,9 @@ impl Consumer {
     fn dump(m: &SnapshotMap) -> Vec<Row> {
         let mut v = Vec::new();
         for (addr, pm) in m {
-            for ((_f, nlri), ch) in pm {
+            for ((f, nlri), ch) in pm {
                 if let Some(a) = ch.attrs.as_ref() {
-                    v.push((*addr, nlri.clone(), a.clone()));
+                    v.push((*addr, *f, nlri.clone(), a.clone(), ch.nexthop));
                 }
             }
         }
@@ -161,4 +166,171 @@ impl Wire {
         }
         Some(out)
     }
+}
+
+// ---------------------------------------------------------------------------------------------
+// The REAL `BmpClient::serve` on a loopback connection.
+//
+// `Serve::start` runs on the subscriber's OS thread (whose scheduling hook is installed): serve
+// sends Initiation, calls `tables.subscribe(true)` (the deterministic scheduler interleaves the
+// other threads at the points inside it), drains the channel up to EndOfSnapshot, reads the
+// established peers from the real `Global`, sends the PeerUp burst, flushes the snapshot maps and
+// enters its live loop.  The future is polled until it is quiescent (pending with nothing new on
+// the wire).  `drive` polls it again later (live events), `finish` cancels it, lets it unsubscribe
+// and returns everything that was written on the connection, decoded.
+pub(crate) struct Serve {
+    rt: tokio::runtime::Runtime,
+    fut: Option<std::pin::Pin<Box<dyn std::future::Future<Output = ()> + Send>>>,
+    server: std::net::TcpStream,
+    cancel: CancellationToken,
+    buf: Vec<u8>,
+}
+
+/// One decoded BMP message: (type, peer address, per-peer flags, embedded BGP messages).
+pub(crate) struct WireMsg {
+    pub(crate) ty: u8,
+    pub(crate) peer_type: u8,
+    pub(crate) flags: u8,
+    pub(crate) addr: Option<IpAddr>,
+    pub(crate) updates: Vec<bgp::Message>,
+    pub(crate) bad: bool,
+}
+
+impl Serve {
+    pub(crate) fn start(tables: TableHandle, global: GlobalHandle) -> Serve {
+        let rt = tokio::runtime::Builder::new_current_thread()
+            .enable_all()
+            .build()
+            .expect("tokio runtime");
+        let listener = std::net::TcpListener::bind("127.0.0.1:0").expect("bind loopback");
+        let addr = listener.local_addr().unwrap();
+        let stream = rt.block_on(TcpStream::connect(addr)).expect("connect loopback");
+        let (server, _) = listener.accept().expect("accept loopback");
+        server.set_nonblocking(true).unwrap();
+        let cancel = CancellationToken::new();
+        let fut = Box::pin(BmpClient::serve(stream, cancel.clone(), global, tables, BmpPolicy::Both));
+        let mut s = Serve { rt, fut: Some(fut), server, cancel, buf: Vec::new() };
+        s.drive();
+        s
+    }
+
+    fn pump(server: &mut std::net::TcpStream, buf: &mut Vec<u8>) -> bool {
+        use std::io::Read;
+        let mut got = false;
+        let mut tmp = [0u8; 65536];
+        loop {
+            match server.read(&mut tmp) {
+                Ok(0) => return got,
+                Ok(n) => {
+                    buf.extend_from_slice(&tmp[..n]);
+                    got = true;
+                }
+                Err(_) => return got,
+            }
+        }
+    }
+
+    /// Poll serve until it is pending and nothing new arrives on the wire (or it has finished).
+    pub(crate) fn drive(&mut self) {
+        let Serve { rt, fut, server, buf, .. } = self;
+        let Some(f) = fut.as_mut() else { return };
+        let done = rt.block_on(async {
+            let mut idle = 0;
+            loop {
+                if let std::task::Poll::Ready(()) = futures::poll!(f.as_mut()) {
+                    return true;
+                }
+                tokio::task::yield_now().await;
+                if Self::pump(server, buf) {
+                    idle = 0;
+                } else {
+                    idle += 1;
+                    if idle >= 4 {
+                        return false;
+                    }
+                }
+            }
+        });
+        if done {
+            *fut = None;
+        }
+    }
+
+    pub(crate) fn finish(mut self) -> Vec<WireMsg> {
+        self.drive();
+        self.cancel.cancel();
+        self.drive();
+        {
+            let _g = self.rt.enter();
+            self.fut = None;
+        }
+        self.server.set_nonblocking(false).unwrap();
+        Self::pump(&mut self.server, &mut self.buf);
+        decode_wire(&self.buf)
+    }
+}
+
+fn decode_wire(buf: &[u8]) -> Vec<WireMsg> {
+    let mut out = Vec::new();
+    let mut i = 0usize;
+    let caps = vec![
+        packet::Capability::MultiProtocol(Family::IPV4),
+        packet::Capability::MultiProtocol(Family::IPV6),
+        packet::Capability::FourOctetAsNumber(65001),
+    ];
+    while i < buf.len() {
+        let bad = |out: &mut Vec<WireMsg>| {
+            out.push(WireMsg { ty: 255, peer_type: 0, flags: 0, addr: None, updates: vec![], bad: true })
+        };
+        if buf.len() - i < 6 || buf[i] != 3 {
+            bad(&mut out);
+            return out;
+        }
+        let len = u32::from_be_bytes([buf[i + 1], buf[i + 2], buf[i + 3], buf[i + 4]]) as usize;
+        let ty = buf[i + 5];
+        if len < 6 || i + len > buf.len() {
+            bad(&mut out);
+            return out;
+        }
+        let body = &buf[i + 6..i + len];
+        // Initiation (4) / Termination (5) have no per-peer header
+        if ty == 4 || ty == 5 {
+            out.push(WireMsg { ty, peer_type: 0, flags: 0, addr: None, updates: vec![], bad: false });
+            i += len;
+            continue;
+        }
+        if body.len() < 42 {
+            bad(&mut out);
+            return out;
+        }
+        let (peer_type, flags) = (body[0], body[1]);
+        let a = &body[10..26];
+        let addr = if flags & bmp::Message::PEER_FLAG_IPV6 != 0 {
+            let mut o = [0u8; 16];
+            o.copy_from_slice(a);
+            IpAddr::V6(std::net::Ipv6Addr::from(o))
+        } else {
+            IpAddr::V4(Ipv4Addr::new(a[12], a[13], a[14], a[15]))
+        };
+        let mut updates = Vec::new();
+        let mut is_bad = false;
+        if ty == 0 {
+            // Route Monitoring: the rest is one BGP UPDATE, parsed by the repo's own decoder
+            let mut codec = bgp::PeerCodec::negotiate(&caps, &caps);
+            let mut b = bytes::BytesMut::from(&body[42..]);
+            match codec.try_parse(&mut b) {
+                Ok(Some(p)) => match bgp::validate_message(p, false) {
+                    Ok(it) => updates.extend(it),
+                    Err(_) => is_bad = true,
+                },
+                _ => is_bad = true,
+            }
+            if !b.is_empty() {
+                is_bad = true;
+            }
+        }
+        out.push(WireMsg { ty, peer_type, flags, addr: Some(addr), updates, bad: is_bad });
+        i += len;
+    }
+    out
 }
